@@ -166,6 +166,8 @@ class XorEncodedFile(io.RawIOBase):
         return self.fh.seek(offset, whence)
 
     def read(self, n=-1):
+        if n == 0:
+            return b""
         data = b""
         nonce = self.read_nonce()
         while True:
@@ -179,6 +181,9 @@ class XorEncodedFile(io.RawIOBase):
                 break
         if n == -1:
             n = None
+        elif len(data) > n:
+            # only consume the bytes that are returned
+            self.fh.seek(n - len(data), io.SEEK_CUR)
         return data[:n]
 
 
